@@ -46,6 +46,7 @@ class Contract:
                                                # loop condition) and the listed axioms *only*, then available to the code after the loop
     ghost_state: dict = field(default_factory=dict)   # name -> (T, f(o) -> Sym): specification-only variables, read in invariants as e.get('$g.<name>')
     ghost_updates: dict = field(default_factory=dict) # loop ordinal -> f(e) -> {name: Sym}: assignment executed at the end of every iteration of that loop
+    ghost_fields_of: tuple = ()                # names of environment records whose ghost fields are assigned by ghost_updates ("self")
     if_ordinals: bool = False                  # number loops inside `if` blocks separately (if<k>.<n>); off: they restart at <n> and may share an invariant with a top-level loop
     entry_lemmas: object = None                # f(o) -> [(name, [local axioms], Bool)]: consequences of the precondition, each proved *in isolation*
                                                # (from the precondition and the listed axioms only), then available to every later obligation
@@ -211,6 +212,10 @@ class Engine:
         # len(x) <op> const  (cardinality without a cardinality theory)
         lc = self.len_compare(e, st)
         if lc is not None: return lc
+        if isinstance(op, (ast.Is, ast.IsNot)) and isinstance(e.comparators[0], ast.Constant) and e.comparators[0].value is None and isinstance(e.left, ast.Attribute):
+            base = self.ev(e.left.value, st); hook = getattr(self.w, 'attr_none_tests', {}).get((getattr(base.t, 'name', None), e.left.attr))
+            if hook is not None:                  # `obj.attr is None` for an attribute whose None-ness is a flag of the view
+                t = hook(base); return Sym(TBool, Not(t) if isinstance(op, ast.IsNot) else t)
         l = self.ev(e.left, st); r = self.ev(e.comparators[0], st)
         if isinstance(op, (ast.In, ast.NotIn)):
             t = self.mem(r, l); return Sym(TBool, Not(t) if isinstance(op, ast.NotIn) else t)
@@ -318,6 +323,8 @@ class Engine:
             return Sym(base.t.elem, base.term[k.term])
         if is_tuple(base.t) and isinstance(e.slice, ast.Constant):
             return base.t.get(base, f'_{e.slice.value}')
+        if isinstance(base.t, TRec) and f'{base.t.name}.__getitem__' in self.w.contracts:       # indexable record (a Python list viewed as length + array)
+            return self.apply_contract(self.w.contracts[f'{base.t.name}.__getitem__'], None, base, [k], st, e.lineno)
         raise Unsupported(f'subscript of {base.t} (line {e.lineno})')
 
     def ev_IfExp(self, e, st):
@@ -394,7 +401,10 @@ class Engine:
             if n in self.w.identity_fns: return self.ev(e.args[0], st)
             if n == 'len' and len(e.args) == 1:
                 a = self.ev(e.args[0], st)
+                if a.t is None and a.ref is not None: a = self.ev(a.ref, st)          # reference local
                 if isinstance(a.t, TSeq): return Sym(TInt, Length(a.term))
+                if isinstance(a.t, TRec) and f'{a.t.name}.__len__' in self.w.contracts:
+                    return self.apply_contract(self.w.contracts[f'{a.t.name}.__len__'], None, a, [], st, e.lineno)
                 raise Unsupported(f'len() of {a.t} outside a comparison with a constant (line {e.lineno})')
             if n in ('set', 'list', 'deque') and len(e.args) == 1:
                 a = self.ev(e.args[0], st)
@@ -486,6 +496,7 @@ class Engine:
             if a == 'setdefault' and len(args) == 2:
                 k, d = args
                 if d.t is TNone and isinstance(t.val, (TSet, TBag, TSeq)): d = t.val.empty()
+                if d.t is TNone and t.val.name in getattr(self.w, 'empty_values', {}): d = self.w.empty_values[t.val.name]()      # [] for a list viewed as a record
                 newmap = t.make(dom=Sym(TSet(t.key), Store(t.get(recv, 'dom').term, k.term, True)),
                                 val=Sym(t.ftype('val'), If(self.mem(recv, k), t.get(recv, 'val').term,
                                                             Store(t.get(recv, 'val').term, k.term, d.term))))
@@ -566,6 +577,9 @@ class Engine:
                 nm = base.t.make(dom=Sym(TSet(base.t.key), Store(base.t.get(base, 'dom').term, k.term, True)),
                                  val=Sym(base.t.ftype('val'), Store(base.t.get(base, 'val').term, k.term, val.term)))
                 return self.assign(node.value, nm, st)
+            if isinstance(base.t, TRec) and f'{base.t.name}.__setitem__' in self.w.contracts:
+                upd = self.apply_contract(self.w.contracts[f'{base.t.name}.__setitem__'], None, base, [k, val], st, getattr(node, 'lineno', 0))
+                return self.assign(node.value, upd, st)
         raise Unsupported(f'assignment target {type(node).__name__}')
 
     # ------------------------------------------------------------------ statements
@@ -663,8 +677,9 @@ class Engine:
             t = self.cur.locals[target.id]
         elif isinstance(target, ast.Attribute) and st is not None:
             base = self.ev(target.value, st); fld = self.w.fields.get((base.t.name, target.attr), target.attr)
-            if not isinstance(fld, str): raise Unsupported('empty literal stored into a computed field')
-            t = base.t.ftype(fld)
+            if callable(fld): t = fld(base).t                      # computed field: the type its getter gives
+            elif not isinstance(fld, str): raise Unsupported('empty literal stored into a computed field')
+            else: t = base.t.ftype(fld)
         else:
             raise Unsupported(f'empty collection needs a declared type (line {val.lineno})')
         if is_map(t):
@@ -738,13 +753,18 @@ class Engine:
         mod = self.modified_names(s.body); results = []
         if self.cur.ghost_updates:                         # ghost variables assigned in this loop or in a loop nested in it are modified by it
             for od, upd in self.cur.ghost_updates.items():
-                if od == ordinal or od.startswith(ordinal + '.'): mod |= {'$g.' + g for g in self.cur.ghost_state}
+                if od == ordinal or od.startswith(ordinal + '.'): mod |= {'$g.' + g for g in self.cur.ghost_state} | set(getattr(self.cur, 'ghost_fields_of', ()))
         gupd = self.cur.ghost_updates.get(ordinal)
         def finish(body_outs, next_done_inv):
             for e_st, oc in body_outs:
                 if oc in ('normal', 'continue'):
                     if gupd is not None:
-                        for g, v in gupd(NS(e_st.env)).items(): e_st.env['$g.' + g] = v
+                        for g, v in gupd(NS(e_st.env)).items():
+                            if '.' in g:                      # ghost *field* of a record in the environment ("self.pr"): specification-only part of the view
+                                var, fld = g.split('.', 1); curv = e_st.env[var]; newv = curv.t.update(curv, fld, v)
+                                e_st.env[var] = newv
+                                if ('$param:' + var) in e_st.env and not e_st.env.get('$rebound:' + var): e_st.env['$param:' + var] = newv
+                            else: e_st.env['$g.' + g] = v
                     for n_ in mod:
                         a_, b_ = st.env.get(n_), e_st.env.get(n_)
                         if isinstance(a_, Sym) and isinstance(b_, Sym) and a_.t is not None and b_.t is not None and a_.t != b_.t:
